@@ -514,6 +514,33 @@ example : (serializeFieldAt toy (serializeF toy 1) (TyS.base .bytes) (.bytes (Li
     ((serializeFieldAt toy (serializeF toy 1) (TyS.base .bytes) (.bytes (List.replicate 254 7))).map (fun x => (x.take 4, x.length))) =
       some ([254, 254, 0, 0], 260) := by decide +kernel
 
+/-- block.py REGENERATED (`Generated.TlEngine.Block`: `BlockIdExt.__init__`, `to_bytes`, `from_bytes`, `__eq__`, `__hash__`; declared:
+the first three attributes are ints, the hashes are bytes): for ALL ids the regenerated methods are the model's `toBytes` (big-endian
+signed 4 / 8 / 4 bytes, OverflowError = raises), `fromBytes`, `pyEq`, `pyHash`; hence `c14_blockid` holds of the code as regenerated:
+`from_bytes(to_bytes(b)) = b` on 80 bytes for in-range ids, and `a == b` implies `a = b` and equal hashes. -/
+theorem c14_src_blockid (a b : BlockIdExt) (d : Bytes) (H : Int × Int × Int × Bytes × Bytes → Int) :
+    Block.to_bytes b.fileHash b.rootHash b.seqno b.shard b.workchain = b.toBytes ∧
+    Block.from_bytes d = some (BlockIdExt.fromBytes d) ∧
+    Block.eq b a.fileHash a.rootHash a.seqno a.shard a.workchain = some (a.pyEq b) ∧
+    Block.hash H a.fileHash a.rootHash a.seqno a.shard a.workchain = some (a.pyHash H) ∧
+    ((-2^31 ≤ b.workchain ∧ b.workchain < 2^31) → (-2^63 ≤ b.shard ∧ b.shard < 2^63) → (-2^31 ≤ b.seqno ∧ b.seqno < 2^31) →
+      b.rootHash.length = 32 → b.fileHash.length = 32 →
+      ∃ x, Block.to_bytes b.fileHash b.rootHash b.seqno b.shard b.workchain = some x ∧ x.length = 80 ∧ Block.from_bytes x = some b) ∧
+    (Block.eq b a.fileHash a.rootHash a.seqno a.shard a.workchain = some true →
+      a = b ∧ Block.hash H a.fileHash a.rootHash a.seqno a.shard a.workchain = Block.hash H b.fileHash b.rootHash b.seqno b.shard b.workchain) := by
+  refine ⟨block_to_bytes_eq b, block_from_bytes_eq d, block_eq_eq a b, block_hash_eq H a, ?_, ?_⟩
+  · intro hw hs hq hr hf
+    obtain ⟨x, h1, h2, h3⟩ := blockIdExt_bytes b hw hs hq hr hf
+    exact ⟨x, by rw [block_to_bytes_eq]; exact h1, h2, by rw [block_from_bytes_eq, h3]⟩
+  · intro h
+    rw [block_eq_eq] at h
+    have := blockIdExt_eq_hash H a b (by simpa using h)
+    exact ⟨this.1, by rw [block_hash_eq, block_hash_eq, this.2]⟩
+
+example : Block.to_bytes [9] [7] 5 (-9223372036854775808) (-1) =
+    some ([255, 255, 255, 255] ++ [128, 0, 0, 0, 0, 0, 0, 0] ++ [0, 0, 0, 5] ++ [7] ++ [9]) ∧
+    Block.to_bytes [] [] 0 0 (2 ^ 31) = none := by decide
+
 end SrcEngine
 
 end TonVerif.Properties.C14
